@@ -198,6 +198,9 @@ def run(tier):
         if key not in seen:
             seen.add(key)
             uniq.append(it)
+    # every single-declaration history (and every third longer one) once more with the constraints generated by a real
+    # pep.solve() instead of a direct call of set_class_constraints()
+    uniq += [dict(it, via_pep=1) for i, it in enumerate(uniq) if len(it["h"]) == 1 or i % 3 == 0]
     traces = pool_map("drv_c04", "run", uniq)
     traces += perm_traces(res, wd, tier)
     res.traces = len(traces)
